@@ -78,11 +78,15 @@ def main(argv):
     except F.ExtractError as e:
         print("NO VERDICT for %s: %s" % (prop, e))
         return 2
-    except Exception:
-        # an internal failure of the checker is not a property verdict, but must not pass silently
+    except Exception as e:
+        # A rule met a construct it was not written for. The tree builds (facts were extracted), so this is a shape the rule
+        # cannot decide: fail closed as `undecidable-shape` (exit 1, with the construct named) rather than give no verdict.
+        tb = traceback.extract_tb(e.__traceback__)
+        where = "%s:%s" % (os.path.basename(tb[-1].filename), tb[-1].name) if tb else "?"
         traceback.print_exc()
-        print("NO VERDICT for %s: internal checker error" % prop)
-        return 2
+        rep.undecidable(prop + ".internal", "%s.internal/rule-error/%s/%s" % (prop, type(e).__name__, where), loc="",
+                        construct="rule code raised %s: %s" % (type(e).__name__, str(e)[:200]),
+                        detail="the analysed code has a shape this rule does not handle; the remaining rules of the check were not run")
     if tier == "thorough" and getattr(mod, "THOROUGH_SECOND_CONFIG", True) and prop != "C18":
         # thorough = every rule of the property again on the `uuid` feature configuration (the second build
         # configuration of the crate), merged under rule names suffixed with @uuid
@@ -94,10 +98,12 @@ def main(argv):
         except F.ExtractError as e:
             print("NO VERDICT for %s (uuid configuration): %s" % (prop, e))
             return 2
-        except Exception:
+        except Exception as e:
+            tb = traceback.extract_tb(e.__traceback__)
+            where = "%s:%s" % (os.path.basename(tb[-1].filename), tb[-1].name) if tb else "?"
             traceback.print_exc()
-            print("NO VERDICT for %s: internal checker error (uuid configuration)" % prop)
-            return 2
+            rep2.undecidable(prop + ".internal", "%s.internal/rule-error/%s/%s" % (prop, type(e).__name__, where), loc="",
+                             construct="rule code raised %s: %s (uuid configuration)" % (type(e).__name__, str(e)[:200]))
         for i in rep2.instances:
             if i["rule"].endswith("@uuid"):
                 continue
